@@ -370,7 +370,7 @@ def normalize(scn, raw):
                 # refused: a coroutine payload asked its own flavour's loop for a blocking execute
                 out.append({"e": "ExecRefused", "x": "x%d" % e["call"]})
             else:
-                out.append({"e": "ExecRet", "x": "x%d" % e["call"], "same": bool(e["same"]), "got": e["got"]})
+                out.append({"e": "ExecRet", "x": "x%d" % e["call"], "same": bool(e["same"]), "got": e["got"], "exc": str(e.get("exc", "")), "flavour": str(call.get("flavour", ""))})
         elif n == "quiescent":
             out.append({"e": "Quiescent"})
         elif n == "timeout":
@@ -488,6 +488,10 @@ def fingerprint(name, scn, ev, idx):
     if name in ("CleanupBeforeEnd", "NoStepAfterEnd", "TerminationObserved", "FailStopSafe", "CauseFaithful", "FailStopObserved"):
         ret = next((x for x in ev if x["e"] == "AcceptRet" and x.get("r") == 1), None)
         fp["accept_exc"] = ret.get("exc", "") if ret else "(still running)"
+    if name == "ExecOutcomeIdentity":
+        # which exception type came back as another object, from which flavour's runner
+        fp["exception"] = e.get("exc", "")
+        fp["flavour"] = e.get("flavour", "")
     if name == "ShutdownDoesNotRaise":
         ret = next((x for x in ev if x["e"] == "ShutdownRet" and not x.get("ok", True)), {})
         fp["exception"] = ret.get("exc", "")
